@@ -354,7 +354,22 @@ impl Gen {
 
     fn gen_plain_table(&mut self, max_cols: usize) -> (String, Vec<ColSpec>) {
         self.table_seq += 1;
-        let name = if self.rng.chance(800) {
+        let like_stream: Vec<String> = self
+            .stream_names
+            .iter()
+            .filter(|n| {
+                n.len() <= 31
+                    && n.chars().next().map(|c| c.is_ascii_alphabetic() || c == '_').unwrap_or(false)
+                    && n.chars().all(|c| c.is_ascii_alphanumeric() || c == '_' || c == '.')
+                    && !self.model.tables.contains_key(*n)
+                    && !n.starts_with("_")
+            })
+            .cloned()
+            .collect();
+        let name = if !like_stream.is_empty() && self.rng.chance(150) {
+            // a table named like an existing stream
+            self.rng.pick(&like_stream).clone()
+        } else if self.rng.chance(800) {
             format!("T{}", self.table_seq)
         } else {
             let l = *self.rng.pick(&[1usize, 2, 5, 17, 31, 32]);
@@ -807,6 +822,11 @@ impl Gen {
                 1 => t,
                 _ => format!("{}X.y", t),
             }
+        } else if self.rng.chance(300) {
+            // a stream named like a table that does not exist yet: the table
+            // is created later, over the stream (streams and tables live in
+            // separate name spaces of the container)
+            format!("T{}", self.table_seq + 1 + self.rng.below(2) as u32)
         } else {
             format!("Icon.{}.ico", self.rng.below(50))
         };
@@ -1239,6 +1259,9 @@ impl Gen {
                         CType::Str(w) if w > 0 => Val::Str("W".repeat(w as usize + 1)),
                         CType::Str(_) => Val::Int(3),
                         _ => match c.range {
+                            // inside the declared range, outside what the cell can hold
+                            Some((_, hi)) if c.ty == CType::I16 && hi > 32767 && self.rng.chance(600) => Val::Int(*self.rng.pick(&[32768, hi])),
+                            Some((lo, _)) if c.ty == CType::I16 && lo <= -32768 && self.rng.chance(600) => Val::Int(*self.rng.pick(&[-32768, lo])),
                             Some((_, hi)) if hi < i32::MAX => Val::Int(hi + 1),
                             _ => Val::Str("r".into()),
                         },
@@ -2433,6 +2456,42 @@ pub fn generate(property: &str, profile: Profile, seed: u64, run: u64) -> Trace 
                 g.push(Op::DropWriter { h });
             }
             g.handles_open.clear();
+            if profile == Profile::Reject && g.rng.chance(120) {
+                // a tail in which the file's catalog no longer matches the
+                // definitions in memory: a column's validation row is edited
+                // through a query, then calls are refused for every kind of
+                // reason (unknown tables first - the statement never gets as
+                // far as a table) and compared before/after
+                let users: Vec<(String, String, bool)> = g
+                    .model
+                    .tables
+                    .iter()
+                    .filter(|(_, t)| !t.catalog)
+                    .flat_map(|(n, t)| t.cols.iter().map(move |c| (n.clone(), c.name.clone(), matches!(c.ty, CType::I16 | CType::I32))))
+                    .collect();
+                if !users.is_empty() {
+                    let (table, column, is_int) = g.rng.pick(&users).clone();
+                    let nullable = g.rng.chance(600);
+                    let (min, max) = if is_int && g.rng.chance(700) { (Some(0), Some(*g.rng.pick(&[1i32, 100, 30000]))) } else { (None, None) };
+                    g.push(Op::CatalogEdit { table: table.clone(), column, nullable, min, max });
+                    for _ in 0..2 + g.rng.below(5) {
+                        let ghost = format!("Ghost{}", g.rng.below(3));
+                        match g.rng.below(8) {
+                            0 => g.push(Op::Select { table: ghost, cols: Vec::new(), cond: None }),
+                            1 => g.push(Op::Insert { table: ghost, rows: vec![vec![Val::Int(1)]] }),
+                            2 => g.push(Op::Update { table: ghost, sets: vec![("A".to_string(), Val::Int(1))], cond: None }),
+                            3 => g.push(Op::Delete { table: ghost, cond: None }),
+                            4 => g.push(Op::DropTable { name: ghost }),
+                            _ => g.one_op(),
+                        }
+                    }
+                    let hs: Vec<u8> = g.handles_open.iter().map(|x| x.0).collect();
+                    for h in hs {
+                        g.push(Op::DropWriter { h });
+                    }
+                    g.handles_open.clear();
+                }
+            }
             let op = g.op_restart();
             g.push(op);
         }
